@@ -405,3 +405,9 @@ package base
 //@   terminates
 //@   inline 2 1
 //@   witness dec:rec#0 "class A < B\nend\nclass B < A\nend\nA.new.foo\n"
+
+//@ # ---- C01: rendering a signature indexes the declared parameter names ----
+//@ func ti/base.MakeSignatureContent
+//@   safe idx,slice
+//@   inline 4 1
+//@   witness idx#1 "def test x, *"
